@@ -3,6 +3,7 @@ package main
 import (
 	"encoding/hex"
 	"encoding/json"
+	"errors"
 	"flag"
 	"fmt"
 	"regexp"
@@ -44,6 +45,15 @@ func implParse(q string) (obs map[string]any) {
 		}
 		if err == nil {
 			return map[string]any{"ok": true, "nosegs": true, "segs": []any{}}
+		}
+	}
+	if err != nil && hooksAvailable {
+		// what the caller of Prepare is told is what counts: the same text, the same position
+		// (whatever Prepare did before this call)
+		if _, perr := sqlair.Prepare(q); perr != nil {
+			if pm := strings.TrimPrefix(perr.Error(), "cannot prepare statement: "); pm != err.Error() && strings.HasPrefix(pm, "cannot parse expression: ") {
+				err = errors.New(pm)
+			}
 		}
 	}
 	if err != nil {
